@@ -246,7 +246,38 @@ pub fn gen_c14(out: &mut Out, rng: &mut Rng, thorough: bool) {
         let nreq = rng.range(0, 3);
         let s = gen_sequence(rng, kind, nreq);
         let mut stream = s.stream.clone();
-        let bad: Vec<u8> = match (kind, rng.below(5)) {
+        let bad: Vec<u8> = match (kind, rng.below(8)) {
+            // a well-formed request PDU, damaged: cut short at any length (down to the empty
+            // PDU), grown by surplus bytes, one field overwritten – inside a valid frame
+            (_, 5..=7) => {
+                let req = srv_request(rng, kind);
+                let good = spec::request_bytes(&req).unwrap();
+                let mut pdu = good.clone();
+                let mut tries = 0;
+                loop {
+                    pdu = good.clone();
+                    match rng.below(4) {
+                        0 => pdu.truncate(rng.below(good.len())),
+                        1 => pdu.extend((0..rng.range(1, 4)).map(|_| rng.u8())),
+                        2 => {
+                            let i = rng.range(1, good.len().max(2)).min(good.len() - 1);
+                            pdu[i] = rng.u8();
+                        }
+                        _ => pdu = (0..rng.range(1, 12)).map(|_| rng.u8()).collect(),
+                    }
+                    tries += 1;
+                    // RTU takes the frame length from the function code: a PDU of another length is
+                    // line noise there (C11), not a malformed request
+                    let rtu_len_ok = kind == "tcp" || (pdu.len() == good.len() && pdu[0] == good[0]);
+                    if (matches!(spec::classify_request(&pdu), Verdict::Reject) && rtu_len_ok) || tries > 20 {
+                        break;
+                    }
+                }
+                if !matches!(spec::classify_request(&pdu), Verdict::Reject) {
+                    pdu = vec![0x05, 0x00, 0x01, 0x12, 0x34];
+                }
+                frame(kind, rng.u16(), rng.u8(), &pdu)
+            }
             ("tcp", 0) => {
                 let mut f = spec::mbap(rng.u16(), rng.u8(), &[0x11]);
                 f[2] = rng.u8();
